@@ -33,6 +33,7 @@ Closed table  Python construct -> model term
   np.isfinite(a) | np.isfinite(b)   (also &)                                    -> `(..).isFinite || (..).isFinite`
   np.sum(x.astype(int), axis=-1)    (axis=1 too)                                -> `((List.range T).filter fun i => x).length`
   np.maximum(n, k) / np.minimum(n, k)                                           -> `max n k` / `min n k`
+  n + k, n - k  (counts)                                                        -> `n + k` / `n - k`
   len(self.times())                                                             -> `T`
  closure body
   if is_path_goal: A else: B                            -> `if isPath then A else B`
@@ -178,6 +179,14 @@ class NActive:
             if ka == kb == "bcells":
                 return ("bcells", "(%s %s %s)" % (a, "||" if isinstance(node.op, ast.BitOr) else "&&", b))
             raise TE("n_active: | / & of non-masks", node)
+        if isinstance(node, ast.BinOp) and isinstance(node.op, (ast.Add, ast.Sub)):
+            (ka, a), (kb, b) = self.expr(node.left), self.expr(node.right)
+            if {ka, kb} <= {"nat", "natpc"}:  # truncated subtraction would differ from Python below zero: only
+                if isinstance(node.op, ast.Sub) and not (kb == "nat" and b.isdigit() and (a == "T" or a.startswith("(max"))):
+                    raise TE("n_active: subtraction that may go below zero", node)
+                return ("natpc" if "natpc" in (ka, kb) else "nat",
+                        "(%s %s %s)" % (a, "+" if isinstance(node.op, ast.Add) else "-", b))
+            raise TE("n_active: + / - of non-counts", node)
         if isinstance(node, ast.Call) and is_attr(node.func, "np", "isfinite") and len(node.args) == 1 \
                 and not node.keywords:
             k, a = self.expr(node.args[0])
@@ -268,9 +277,11 @@ class Closure:
         names = [x.arg for x in a.args]
         nd = len(a.defaults)
         pos = names[:len(names) - nd]
-        if pos != ["problem", "ensemble_member"]:
-            raise TE("closure: positional parameters are not (problem, ensemble_member): %r" % (pos,), fdef)
-        self.params = {"problem": ("problem",), "ensemble_member": ("member", "m")}
+        if len(pos) != 2:
+            raise TE("closure: not called as o(problem, ensemble_member): positional parameters %r" % (pos,), fdef)
+        # `o(self, ensemble_member)` in _gp_objective / _gp_path_objective / _gp_n_objectives: first the problem,
+        # then the member the caller asks for
+        self.params = {pos[0]: ("problem",), pos[1]: ("member", "m")}
         for n, d in zip(names[len(names) - nd:], a.defaults):
             # a default is evaluated when the closure is created: this iteration's value
             if not is_name(d):
@@ -831,6 +842,21 @@ def objFuncMinGen %(CLOS_SIG)s
 def objFuncLinGen %(CLOS_SIG)s
   %(objLin)s
 
+/-- the divisors are the model's `Goal.nActive` (the quantity `C03_n_active_counts` is about) -/
+theorem nActiveGen_eq_model (sbs isPath : Bool) (T : Nat) (g : C03.Goal) (c : Nat) :
+    (g.hasBounds = true → nActiveTargetGen sbs isPath T g c = g.nActive sbs isPath T c)
+    ∧ (g.hasBounds = true → nActiveLinGen sbs isPath T g c = g.linearized.nActive sbs isPath T c)
+    ∧ (g.hasBounds = false → nActiveMinGen sbs isPath T g c = g.nActive sbs isPath T c) := by
+  refine ⟨fun hb => ?_, fun hb => ?_, fun hb => ?_⟩
+  · cases isPath <;> cases sbs <;>
+      simp [nActiveTargetGen, C03.Goal.nActive, C03.Goal.activeCount, C03.Goal.activeAt, hb, Bool.or_comm, Nat.max_comm]
+  · have hb' : g.linearized.hasBounds = true := hb
+    cases isPath <;> cases sbs <;>
+      simp [nActiveLinGen, C03.Goal.nActive, C03.Goal.activeCount, C03.Goal.activeAt, hb', Bool.or_comm, Nat.max_comm] <;>
+      simp [C03.Goal.linearized]
+  · cases isPath <;> cases sbs <;>
+      simp [nActiveMinGen, C03.Goal.nActive, hb, Nat.max_comm]
+
 theorem objFuncTargetGen_eq_model (sbs isPath : Bool) (T : Nat) (val : C03.Val) (symIndex : Nat)
     (gj : C03.Goal × Nat) %(LATE_SIG)s
     (hc : gj.1.critical = false) (hb : gj.1.hasBounds = true) :
@@ -839,8 +865,9 @@ theorem objFuncTargetGen_eq_model (sbs isPath : Bool) (T : Nat) (val : C03.Val) 
       = C03.closureOf sbs isPath T val gj := by
   funext m i
   cases isPath <;> cases sbs <;>
-    simp [objFuncTargetGen, epsSymGen, nActiveTargetGen, C03.closureOf, C03.objVec, C03.base, C03.Goal.nActive,
-      C03.Goal.activeCount, C03.Goal.activeAt, C03.readVariable, C03.readExtra, C03.readFunction, hc, hb]
+    (simp [objFuncTargetGen, epsSymGen, nActiveTargetGen, C03.closureOf, C03.objVec, C03.base, C03.Goal.nActive,
+      C03.Goal.activeCount, C03.Goal.activeAt, C03.readVariable, C03.readExtra, C03.readFunction, hc, hb,
+      Bool.or_comm, Nat.max_comm] <;> intros <;> ring)
 
 theorem objFuncMinGen_eq_model (sbs isPath : Bool) (T : Nat) (val : C03.Val)
     (gj : C03.Goal × Nat) %(LATE_SIG)s
@@ -849,8 +876,8 @@ theorem objFuncMinGen_eq_model (sbs isPath : Bool) (T : Nat) (val : C03.Val)
       = C03.closureOf sbs isPath T val gj := by
   funext m i
   cases isPath <;> cases sbs <;>
-    simp [objFuncMinGen, nActiveMinGen, C03.closureOf, C03.objVec, C03.base, C03.Goal.nActive,
-      C03.readVariable, C03.readExtra, C03.readFunction, hc, hb]
+    (simp [objFuncMinGen, nActiveMinGen, C03.closureOf, C03.objVec, C03.base, C03.Goal.nActive,
+      C03.readVariable, C03.readExtra, C03.readFunction, hc, hb, Nat.max_comm] <;> intros <;> ring)
 
 /-- the closure of the linearising mixin is the objective function of the same goal with exponent 1 (on the linear
     majorant variable), same weight and same divisor -/
@@ -864,9 +891,10 @@ theorem objFuncLinGen_eq_model (sbs isPath : Bool) (T : Nat) (val : C03.Val) (sy
   have hb' : gj.1.linearized.hasBounds = true := hb
   funext m i
   cases isPath <;> cases sbs <;>
-    simp [objFuncLinGen, linSymGen, nActiveLinGen, C03.closureOf, C03.objVec, C03.base, C03.Goal.nActive,
-      C03.Goal.activeCount, C03.Goal.activeAt, C03.readVariable, C03.readExtra, C03.readFunction, hc', hb'] <;>
-    simp [C03.Goal.linearized]
+    (simp [objFuncLinGen, linSymGen, nActiveLinGen, C03.closureOf, C03.objVec, C03.base, C03.Goal.nActive,
+      C03.Goal.activeCount, C03.Goal.activeAt, C03.readVariable, C03.readExtra, C03.readFunction, hc', hb',
+      Bool.or_comm, Nat.max_comm] <;>
+    simp [C03.Goal.linearized, Bool.or_comm, Nat.max_comm] <;> intros <;> ring)
 
 /-- loop body of `_gp_goal_constraints`: what goal `gj` appends to `objectives` (`override gj` = the attribute
     `goal._objective_func` if the goal has one) -/
@@ -989,7 +1017,7 @@ theorem objectivesGen_linearizedMixin (sbs isPath : Bool) (T : Nat) (val : C03.V
     funext gj
     unfold linOverrideGen
     rw [linearizeGoalGen_eq_model]
-    cases C03.isLinearized optLin (gl gj) gj.1 <;> rfl
+    cases hl : C03.isLinearized optLin (gl gj) gj.1 <;> simp [hl]
   rw [h]
   exact objectivesGen_linearized sbs isPath T val symIndex gjLate epsLate nLate mLate
     (fun gj => C03.isLinearized optLin (gl gj) gj.1) goals hlin
@@ -1067,6 +1095,28 @@ theorem gpNObjectives_chain (sbs : Bool) (T : Nat) (val : C03.Val) (symIndex : N
   simp only [List.flatMap_map]
   rfl
 
+/-- **whole chain**: closures read from `_gp_goal_constraints`, handed over by the translated callers, evaluated by the
+    translated `_gp_n_objectives` / `_gp_objective` (once) / `_gp_path_objective` (every time step), weighted with the
+    member probabilities: the documented objective of the priority -/
+theorem documented_chain (sbs : Bool) (T : Nat) (probs : List Rat) (val : C03.Val) (symIndex : Nat)
+    %(LATE_SIG)s (goals pathGoals : List C03.Goal) :
+    (probs.zipIdx.map fun pm =>
+      pm.1 * (gpObjectiveGen sbs (fun o : C03.Closure => o pm.2 0)
+          (subproblemObjectivesGen sbs T val symIndex (fun _ => none) gjLate epsLate nLate mLate goals pathGoals)
+          (gpNObjectivesGen (fun o : C03.Closure => o pm.2 0) (fun o : C03.Closure => o pm.2 0)
+            (subproblemObjectivesGen sbs T val symIndex (fun _ => none) gjLate epsLate nLate mLate goals pathGoals)
+            (subproblemPathObjectivesGen sbs T val symIndex (fun _ => none) gjLate epsLate nLate mLate goals pathGoals))
+        + ((List.range T).map fun i => gpPathObjectiveGen sbs (fun o : C03.Closure => o pm.2 i)
+          (subproblemPathObjectivesGen sbs T val symIndex (fun _ => none) gjLate epsLate nLate mLate goals pathGoals)
+          (gpNObjectivesGen (fun o : C03.Closure => o pm.2 0) (fun o : C03.Closure => o pm.2 0)
+            (subproblemObjectivesGen sbs T val symIndex (fun _ => none) gjLate epsLate nLate mLate goals pathGoals)
+            (subproblemPathObjectivesGen sbs T val symIndex (fun _ => none) gjLate epsLate nLate mLate goals
+              pathGoals))).sum)).sum
+      = C03.documented sbs T probs val goals pathGoals := by
+  rw [← C03.objective_eq_documented]
+  simp only [gpNObjectives_chain, gpObjective_chain, gpPathObjective_chain]
+  rfl
+
 /-- non-vacuity: two goals (a size-2 path target goal whose second component is never active, a path minimisation
     goal with nominal 10), `scale_by_problem_size`, T = 3: the generated closures give distinct non-trivial vectors
     per goal, member and step, equal to the model's, and the late-bound values play no role -/
@@ -1086,7 +1136,7 @@ example :
 end RtcVerif.Gen
 """
 
-THEOREMS = ["objFuncTargetGen_eq_model", "objFuncMinGen_eq_model", "objFuncLinGen_eq_model",
+THEOREMS = ["nActiveGen_eq_model", "documented_chain", "objFuncTargetGen_eq_model", "objFuncMinGen_eq_model", "objFuncLinGen_eq_model",
             "goalObjectiveGen_eq_model", "objectivesGen_eq_model", "goalObjectiveGen_override",
             "objectivesGen_linearized", "linearizeGoalGen_eq_model",
             "objectivesGen_linearizedMixin", "subproblemLists_eq_model", "gpObjective_chain", "gpPathObjective_chain",
